@@ -181,12 +181,21 @@ def counters_contract(chk, prefix="C09"):
     cls = P.cls("concurrency.models.ExecutionCounters")
     specs = {"should_continue": lambda g: spec_continue(g["total"], g["tc_none"], g["tc"], g["tp_none"], g["tp"], g["f"]),
              "is_complete": lambda g: z3.Or(g["s"] + g["f"] == g["total"], g["s"] >= g["minimum"]),
-             "should_complete": lambda g: spec_stop(g["total"], g["minimum"], g["tc_none"], g["tc"], g["tp_none"], g["tp"], g["s"], g["f"])}
+             "should_complete": lambda g: spec_stop(g["total"], g["minimum"], g["tc_none"], g["tc"], g["tp_none"], g["tp"], g["s"], g["f"]),
+             # the public single-clause predicates (not used by the executor itself, but part of what the class reports about the policy)
+             "is_all_completed": lambda g: g["s"] == g["total"],
+             "is_min_successful_reached": lambda g: g["s"] >= g["minimum"],
+             "is_failure_tolerance_exceeded": lambda g: z3.Or(z3.And(z3.Not(g["tc_none"]), g["f"] > g["tc"]),
+                                                              z3.And(z3.Not(g["tp_none"]), g["total"] > 0, z3.ToReal(g["f"]) * 100 > g["tp"] * z3.ToReal(g["total"])))}
     xc = []
     for m, spec in specs.items():
+        if cls.find_method(m) is None:
+            continue
         st = St()
         c, g = counters_obj(eng, st)
         chk.function(f"concurrency.models.ExecutionCounters.{m}")
+        if m == "is_failure_tolerance_exceeded":
+            chk.function("concurrency.models.ExecutionCounters._is_failure_condition_reached", "verified (inlined)")
         res = eng.run(cls.find_method(m), [c], st=st)
         chk.paths += len(res)
         for k, v, s in res:
